@@ -70,12 +70,12 @@ NV = 4
 def plan(tier):
     if tier == "quick":
         return dict(n_cases=300, shards=2, classes=CLASSES, timeout_s=600,
-                    min_evals={"sort_tilts_by_angle": 1000, "remove_tilts": 1000, "split_stack_even_odd": 1000, "flip_along_axes": 2500,
-                               "crop": 1000, "bin": 1000, "output_file": 5000, "output_file_bin_int16_fractional": 150, "indices_load": 1000, "same_result": 4500,
+                    min_evals={"sort_tilts_by_angle": 2000, "remove_tilts": 2800, "split_stack_even_odd": 2000, "flip_along_axes": 3500,
+                               "crop": 3000, "bin": 2000, "params_unchanged": 5000, "output_file": 5000, "output_file_bin_int16_fractional": 150, "indices_load": 1000, "same_result": 4500,
                                "interleave": 1000, "flip_twice": 800})
     return dict(n_cases=8000, shards=16, classes=CLASSES, timeout_s=3000,
-                min_evals={"sort_tilts_by_angle": 30000, "remove_tilts": 30000, "split_stack_even_odd": 30000, "flip_along_axes": 75000,
-                           "crop": 30000, "bin": 30000, "output_file": 150000, "output_file_bin_int16_fractional": 5000, "indices_load": 30000, "same_result": 130000,
+                min_evals={"sort_tilts_by_angle": 55000, "remove_tilts": 60000, "split_stack_even_odd": 55000, "flip_along_axes": 95000,
+                           "crop": 60000, "bin": 55000, "params_unchanged": 150000, "output_file": 150000, "output_file_bin_int16_fractional": 5000, "indices_load": 30000, "same_result": 130000,
                            "interleave": 30000, "flip_twice": 23000})
 
 
